@@ -18,7 +18,7 @@ import z3
 
 from .engine import ProgExc, Unsupported
 from .models import EXTRA_METHODS, EXTRA_MODELS, BUILTIN_MODELS
-from .values import NArr, NativeMethod, PDict, PList, SArr, Sym, fresh, fresh_name, frac, kind_of, next_uid, to_z3, zint
+from .values import Iter, NArr, NativeMethod, PDict, PList, SArr, Sym, fresh, fresh_name, frac, kind_of, next_uid, to_z3, zint
 
 R = z3.RealSort()
 _OPS = {ast.Mult: operator.mul, ast.Add: operator.add, ast.Sub: operator.sub, ast.Div: operator.truediv}
@@ -133,6 +133,17 @@ class ImgArr:
             return NativeMethod(lambda e, r, a, k: ImgArr(r.shape, r.dtype, r.elem, r.name), self, name)
         if name == "__getitem__":
             return NativeMethod(lambda e, r, a, k: r.__pyvc_getitem__(e, a[0]), self, name)
+        if name == "item":
+            def item(e, r, a, k):
+                if a or k:
+                    raise Unsupported("ndarray.item(index)")
+                used(e, "ndarray.item(): the single element of a size-1 array, ValueError otherwise")
+                one = z3.And(*[_z(d) == 1 for d in r.shape]) if r.shape else z3.BoolVal(True)
+                if not e.branch(e.sbool(one)):
+                    raise ProgExc(ValueError, "can only convert an array of size 1 to a Python scalar")
+                return Sym(r.elem([z3.IntVal(0)] * r.ndim), "real")
+
+            return NativeMethod(item, self, name)
         raise Unsupported(f"ndarray.{name} on an opaque image array")
 
     def astype(self, eng, dt):
@@ -146,7 +157,9 @@ class ImgArr:
 
     def transpose(self, eng, args):
         used(eng, "ndarray.transpose(perm): out.shape[k] = in.shape[perm[k]], out[j] = in[i] with i[perm[k]] = j[k]")
-        if len(args) == 1 and not isinstance(args[0], int):
+        if len(args) == 0 or (len(args) == 1 and args[0] is None):
+            perm = list(range(self.ndim))[::-1]  # a.transpose(): the axes reversed
+        elif len(args) == 1 and not isinstance(args[0], int):
             perm = args[0]
         else:
             perm = args
@@ -174,7 +187,10 @@ class ImgArr:
         return ImgArr([self.shape[p] for p in perm], self.dtype, elem, self.name)
 
     def __pyvc_getitem__(self, eng, idx):
-        raise Unsupported("subscript of an opaque image array")
+        return basic_index(eng, self, idx)
+
+    def __pyvc_isinstance__(self, cls):
+        return cls is np.ndarray
 
     # ---- arithmetic
     def __pyvc_binop__(self, eng, op, a, b):
@@ -187,6 +203,8 @@ class ImgArr:
         from .models import check_frame
 
         check_frame(eng, self)
+        if getattr(self, "has_views", False) or getattr(self, "is_view", False):
+            raise Unsupported("in-place update of an image array that shares storage with a view")
         r = _arith(eng, op, self, val)
         if not np.can_cast(r.dtype, self.dtype, "same_kind"):
             raise ProgExc(TypeError, f"UFuncTypeError: cannot cast ufunc output from {r.dtype} to {self.dtype} with casting rule 'same_kind'")
@@ -620,6 +638,306 @@ def _b_int_trunc(eng, args, kwargs):
     return BUILTIN_MODELS[int](eng, args, kwargs)
 
 
+# ====================================================================================================================
+# Added for the save/load half of C20 (readers, dispatch on the file name, frame writer).  Every model below is a
+# RECORDING model: it returns the contract's ghost file content / an uninterpreted function of its arguments and writes
+# the call into the ghost call log; nothing about the bytes of a file is modelled.
+# ====================================================================================================================
+from .ext_C19 import EXISTS, EXTOF, STEM, StrRef, intern_str, zref  # noqa: E402  (symbolic strings: references; constants are interned)
+
+_I, _B = z3.IntSort(), z3.BoolSort()
+ISDIR = z3.Function("path_isdir", _I, _B)            # os.path.isdir(p)
+LISTDIR = z3.Function("dir_listing", _I, _I)         # os.listdir(p): reference of a names sequence
+DLEN = z3.Function("listing_len", _I, _I)            # its length
+DNAME = z3.Function("listing_at", _I, _I, _I)        # its j-th name
+REMATCH = z3.Function("re_match", _I, _I, _B)        # compiled pattern (interned by its source text) matches at the start of the string
+
+
+def _dim(z):
+    z = z3.simplify(z)
+    return z.as_long() if z3.is_int_value(z) else Sym(z, "int")
+
+
+def _zdim(d):
+    return d.z if isinstance(d, Sym) else zint(d)
+
+
+def slice_bounds(sl, n):
+    """(start, length) of sl over an axis of extent n (z3 Int terms): slice.indices(n) for step 1 / None"""
+    if sl.step is not None and not (isinstance(sl.step, int) and not isinstance(sl.step, bool) and sl.step == 1):
+        raise Unsupported("slice of an image array with a step other than 1")
+
+    def clamp(v, default):
+        if v is None:
+            return default
+        if isinstance(v, bool) or not (isinstance(v, (int, np.integer)) or (isinstance(v, Sym) and v.kind == "int")):
+            raise Unsupported("slice bound of this type")
+        z = to_z3(v if isinstance(v, Sym) else int(v), "int")
+        return z3.If(z < 0, z3.If(z + n < 0, z3.IntVal(0), z + n), z3.If(z > n, n, z))
+
+    start, stop = clamp(sl.start, z3.IntVal(0)), clamp(sl.stop, n)
+    return start, z3.If(stop > start, stop - start, z3.IntVal(0))
+
+
+def basic_index(eng, a, idx):
+    """numpy basic indexing of an opaque image array: integers (negative ones count from the end, out of range raises
+    IndexError), slices with step 1, one Ellipsis.  The result of an all-integer index is the element; otherwise a VIEW
+    (in-place updates of an array that has views are refused, so sharing never has to be tracked)."""
+    used(eng, "ndarray basic indexing (ints, step-1 slices, Ellipsis): out[j] = in[start + j] per sliced axis, integer axes dropped, negative ints "
+              "count from the end, IndexError out of range, slice bounds clamp as slice.indices does")
+    key = idx if isinstance(idx, tuple) else (idx,)
+    if any(k is None for k in key):
+        raise Unsupported("np.newaxis in an image array index")
+    if any(isinstance(k, (ImgArr, NArr, SArr, PList, list)) for k in key):
+        raise Unsupported("advanced (array) indexing of an opaque image array")
+    n_ell = sum(1 for k in key if k is Ellipsis)
+    if n_ell > 1:
+        raise ProgExc(IndexError, "an index can only have a single ellipsis ('...')")
+    n_real = len(key) - n_ell
+    if n_real > a.ndim:
+        raise ProgExc(IndexError, f"too many indices for array: array is {a.ndim}-dimensional, but {n_real} were indexed")
+    full = []
+    for k in key:
+        if k is Ellipsis:
+            full.extend([slice(None)] * (a.ndim - n_real))
+        else:
+            full.append(k)
+    full.extend([slice(None)] * (a.ndim - len(full)))
+    plan, shape = [], []  # per source axis: ("int", pos) | ("slice", start, out_axis)
+    for d, k in enumerate(full):
+        n = _zdim(a.shape[d])
+        if isinstance(k, slice):
+            if k.start is None and k.stop is None and (k.step is None or k.step == 1):
+                plan.append(("slice", z3.IntVal(0), len(shape)))
+                shape.append(a.shape[d])
+                continue
+            start, length = slice_bounds(k, n)
+            plan.append(("slice", z3.simplify(start), len(shape)))
+            shape.append(_dim(length))
+        elif isinstance(k, bool) or not (isinstance(k, (int, np.integer)) or (isinstance(k, Sym) and k.kind == "int")):
+            raise Unsupported(f"image array index of type {type(k).__name__}")
+        else:
+            i = to_z3(k if isinstance(k, Sym) else int(k), "int")
+            if not eng.spec_mode:
+                if not eng.branch(eng.sbool(z3.And(i >= -n, i < n))):
+                    raise ProgExc(IndexError, f"index out of bounds for axis {d}")
+            plan.append(("int", z3.simplify(z3.If(i < 0, i + n, i))))
+
+    def elem(jx, _e=a.elem, _plan=tuple(plan)):
+        ix = []
+        for p in _plan:
+            ix.append(p[1] if p[0] == "int" else (jx[p[2]] if z3.is_int_value(p[1]) and p[1].as_long() == 0 else p[1] + jx[p[2]]))
+        return _e(ix)
+
+    if not shape:
+        return Sym(elem([]), "real")
+    a.has_views = True
+    out = ImgArr(shape, a.dtype, elem, a.name)
+    out.is_view = True
+    out.frozen = a.frozen
+    return out
+
+
+# ------------------------------------------------------------------ paths, directory listings, regular expressions
+def _path_exists(eng, args, kwargs):
+    used(eng, "os.path.exists(p) / os.path.isdir(p): uninterpreted predicates of the path (the file system is not modelled and does not change during a call)")
+    return eng.sbool(EXISTS(zref(args[0])))
+
+
+def _path_isdir(eng, args, kwargs):
+    used(eng, "os.path.exists(p) / os.path.isdir(p): uninterpreted predicates of the path (the file system is not modelled and does not change during a call)")
+    return eng.sbool(ISDIR(zref(args[0])))
+
+
+def _path_splitext(eng, args, kwargs):
+    import os
+
+    p = args[0]
+    if isinstance(p, str):
+        return os.path.splitext(p)  # a concrete name: the real function
+    used(eng, "os.path.splitext(p) of a symbolic name: a pair of uninterpreted functions (stem, extension) of p")
+    z = zref(p)
+    return (StrRef(STEM(z)), StrRef(EXTOF(z)))
+
+
+def _names_seq(eng, v):
+    z = zref(v)
+    eng.assume(DLEN(z) >= 0)
+    return DLEN(z), (lambda k: StrRef(DNAME(z, to_z3(k, "int"))))
+
+
+def _os_listdir(eng, args, kwargs):
+    from .values import Opaque
+
+    used(eng, "os.listdir(p): a finite sequence of names determined by p (listing_len >= 0)")
+    z = LISTDIR(zref(args[0]))
+    eng.assume(DLEN(z) >= 0)
+    return Opaque(z, {"__iter_seq__": _names_seq})
+
+
+def re_match_model(pattern):
+    """model of `compiled.match(s)` used only for its truth value: an uninterpreted predicate of (pattern text, s)"""
+    pz = intern_str("re:" + pattern.pattern)
+
+    def model(eng, args, kwargs):
+        used(eng, "re.Pattern.match(s) of a symbolic string, used for its truth value only: an uninterpreted predicate re_match(pattern, s)")
+        s = args[0]
+        if isinstance(s, str):
+            return pattern.match(s)
+        return eng.sbool(REMATCH(pz, zref(s)))
+
+    return model
+
+
+def _any_model(stock):
+    def model(eng, args, kwargs):
+        v = args[0]
+        seq = v.seq if isinstance(v, Iter) else v
+        if isinstance(seq, PList) and seq.items is None and list(seq.kinds) == ["bool"] and not seq.tup:
+            used(eng, "any(bools of a symbolic-length sequence) = exists position j < n with the j-th value true")
+            if isinstance(v, Iter):
+                v.consumed = True
+            j = z3.Int(fresh_name("aj"))
+            return eng.sbool(z3.Exists([j], z3.And(j >= 0, j < zint(seq.n), z3.Select(seq.cols[0], j))))
+        return stock(eng, args, kwargs)
+
+    return model
+
+
+# ------------------------------------------------------------------ readers of other formats (third party: recording models)
+def _ghost_file(eng, key, what):
+    c = eng.spec_extra.get(key)
+    if c is None:
+        raise Unsupported(f"no `{key}` ghost in the contract setup ({what})")
+    return c
+
+
+def _nrrd_read(eng, args, kwargs):
+    used(eng, "nrrd.read(filename, custom_field_map=None, index_order='F') -> (data, header): data is the file's array in the NRRD axis order "
+              "(fastest axis first) for index_order='F' and with the axes reversed for 'C'; header is an opaque mapping (ghost file content, call recorded)")
+    names = ["filename", "custom_field_map", "index_order"]
+    if len(args) > 3 or any(k not in names for k in kwargs) or any(names[i] in kwargs for i in range(len(args))):
+        raise ProgExc(TypeError, "nrrd.read() arguments")
+    b = dict(zip(names, args))
+    b.update(kwargs)
+    if "filename" not in b:
+        raise ProgExc(TypeError, "nrrd.read() missing filename")
+    order = b.get("index_order", "F")
+    data, header = _ghost_file(eng, "nrrd_content", "nrrd.read")
+    log_call(eng, "nrrd.read", file=b["filename"], kwargs={k: v for k, v in b.items() if k != "filename"}, nargs=len(args))
+    if order == "F":
+        return (data, header)
+    if order == "C":
+        return (data._permuted(list(range(data.ndim))[::-1]), header)
+    raise ProgExc(Exception, "NRRDError: Invalid index order")
+
+
+def _np_load(eng, args, kwargs):
+    used(eng, "np.load(file): returns the array stored in the .npy file (ghost file content, call recorded)")
+    if len(args) != 1:
+        raise Unsupported("np.load call form")
+    log_call(eng, "np.load", file=args[0], kwargs=dict(kwargs))
+    return _ghost_file(eng, "npy_content", "np.load")
+
+
+class V3dLoader:
+    """v3dpy.loaders.Raw() / PBD(): `.load(path)` returns the file's array indexed [c, z, y, x] (v3dpy reshapes the
+    x-fastest byte stream to the REVERSED header sizes), given by the ghost `v3d_content`"""
+
+    def __init__(self, kind):
+        self.kind = kind
+
+    def __pyvc_getattr__(self, eng, name):
+        if name == "load":
+            def load(e, r, a, k):
+                if len(a) != 1 or k:
+                    raise Unsupported("v3dpy load call form")
+                log_call(e, f"v3dpy.{r.kind}.load", file=a[0])
+                return _ghost_file(e, "v3d_content", "v3dpy load")
+
+            return NativeMethod(load, self, name)
+        raise Unsupported(f"v3dpy.{self.kind}.{name}")
+
+
+def _v3d_ctor(kind):
+    def model(eng, args, kwargs):
+        used(eng, "v3dpy.loaders.Raw() / PBD(): loader objects; .load(path) returns the file's array with axes (C, Z, Y, X) = reversed header "
+                  "sizes, as v3dpy documents and does (decoding is compiled code: ghost file content, call recorded)")
+        log_call(eng, f"v3dpy.{kind}", args=tuple(args), kwargs=dict(kwargs))
+        return V3dLoader(kind)
+
+    return model
+
+
+# ------------------------------------------------------------------ tifffile.TiffWriter (frame by frame)
+class TiffWriterHandle:
+    def __init__(self, fname, kwargs):
+        self.fname, self.kwargs, self.opened = fname, kwargs, False
+
+    def __pyvc_getattr__(self, eng, name):
+        if name == "__enter__":
+            def enter(e, r, a, k):
+                log_call(e, "TiffWriter.__enter__", file=r.fname)
+                r.opened = True
+                return r
+
+            return NativeMethod(enter, self, name)
+        if name == "__exit__":
+            def exit_(e, r, a, k):
+                log_call(e, "TiffWriter.__exit__", file=r.fname)
+                r.opened = False
+                return False
+
+            return NativeMethod(exit_, self, name)
+        if name == "write":
+            def write(e, r, a, k):
+                if not r.opened:
+                    raise ProgExc(ValueError, "I/O operation on closed file")
+                kw = {x: (PDict(dict(v.items)) if isinstance(v, PDict) and v.items is not None else v) for x, v in k.items()}
+                seq = e.ghost.setdefault("tiff_pages", [])
+                seq.append(dict(file=r.fname, data=a[0] if a else k.get("data"), kwargs=kw, nargs=len(a)))
+                hook = e.ghost.get("tiff_page_hook")  # contract ghost code: keeps a symbolic log of the pages written inside a cut loop
+                if hook is not None:
+                    hook(e, seq[-1])
+                else:
+                    log_call(e, "TiffWriter.write", **seq[-1])
+                return None
+
+            return NativeMethod(write, self, name)
+        raise Unsupported(f"TiffWriter.{name}")
+
+
+def _tiff_writer(eng, args, kwargs):
+    used(eng, "tifffile.TiffWriter(file): context manager; .write(frame, **options) appends one page with the given options (calls recorded in order)")
+    if len(args) != 1:
+        raise Unsupported("TiffWriter call form")
+    log_call(eng, "tifffile.TiffWriter", file=args[0], kwargs=dict(kwargs))
+    return TiffWriterHandle(args[0], kwargs)
+
+
+# ------------------------------------------------------------------ np.stack of a symbolic number of frames
+STACK0 = z3.Function("np_stack_axis0", z3.ArraySort(_I, _I), _I, _I)  # (frames column, count) -> the stacked array (a reference)
+STACKN = z3.Function("np_stack_axis", z3.ArraySort(_I, _I), _I, _I, _I)  # the same along another axis (kept apart: a different array)
+
+
+def _np_stack_frames(stock):
+    def model(eng, args, kwargs):
+        v = args[0] if args else kwargs.get("arrays")
+        if isinstance(v, PList) and v.items is None and list(v.kinds) == ["ref"] and not v.tup:
+            axis = kwargs.get("axis", args[1] if len(args) > 1 else 0)
+            if not isinstance(axis, int) or isinstance(axis, bool):
+                raise Unsupported("np.stack with a non-constant axis")
+            used(eng, "np.stack(frames, axis) of a symbolic number of frames: a reference determined by the frames in order, their count and the axis "
+                      "(axis 0: out[j] = frames[j]; equal frame shapes are numpy's own precondition)")
+            log_call(eng, "np.stack", frames=v, axis=axis)
+            if axis == 0:
+                return Sym(STACK0(v.cols[0], zint(v.n)), "ref")
+            return Sym(STACKN(v.cols[0], zint(v.n), z3.IntVal(axis)), "ref")
+        return stock(eng, args, kwargs)
+
+    return model
+
+
 def install():
     from . import narr
 
@@ -635,6 +953,7 @@ def install():
     EXTRA_MODELS[np.max] = _col_extreme(False, narr.NP_MODELS[np.max])
     EXTRA_MODELS[int] = _b_int_trunc
     EXTRA_METHODS[(SArr, "reshape")] = _sarr_reshape
+    _install_io()
     try:
         import tifffile
 
@@ -651,5 +970,63 @@ def install():
         EXTRA_MODELS[sdflit.RangeSampler] = _range_sampler
         EXTRA_MODELS[sdflit.ColoredMaterial] = _colored_material
         EXTRA_MODELS[sdflit.ObjectsScene] = _objects_scene
+    except ImportError:  # pragma: no cover
+        pass
+
+
+def _np_add(eng, args, kwargs):
+    """np.add(a, b) = a + b after np.asarray of list arguments (fixed-length vectors only)"""
+    if len(args) != 2 or kwargs:
+        raise Unsupported("np.add call form")
+    from .models import lookup_model
+
+    vals = []
+    for v in args:
+        if isinstance(v, PList):
+            v = lookup_model(np.array)(eng, [v], {})
+        vals.append(v)
+    if not any(isinstance(v, NArr) for v in vals):
+        raise Unsupported("np.add on these operands")
+    used(eng, "np.add(a, b) on fixed-length vectors = a + b elementwise (np.asarray of list arguments)")
+    return eng.binop(ast.Add(), vals[0], vals[1])
+
+
+def _install_io():
+    import os
+
+    EXTRA_MODELS[np.add] = _np_add
+
+    from . import narr
+
+    EXTRA_MODELS[os.path.exists] = _path_exists
+    EXTRA_MODELS[os.path.isdir] = _path_isdir
+    EXTRA_MODELS[os.path.splitext] = _path_splitext
+    EXTRA_MODELS[os.listdir] = _os_listdir
+    EXTRA_MODELS[any] = _any_model(BUILTIN_MODELS[any])
+    EXTRA_MODELS[np.load] = _np_load
+    EXTRA_MODELS[np.stack] = _np_stack_frames(narr.NP_MODELS[np.stack])
+    try:
+        import nrrd
+
+        EXTRA_MODELS[nrrd.read] = _nrrd_read
+    except ImportError:  # pragma: no cover
+        pass
+    try:
+        from v3dpy.loaders import PBD, Raw
+
+        EXTRA_MODELS[Raw] = _v3d_ctor("Raw")
+        EXTRA_MODELS[PBD] = _v3d_ctor("PBD")
+    except ImportError:  # pragma: no cover
+        pass
+    try:
+        import tifffile
+
+        EXTRA_MODELS[tifffile.TiffWriter] = _tiff_writer
+    except ImportError:  # pragma: no cover
+        pass
+    try:
+        from swcgeom.images import io as _io
+
+        EXTRA_MODELS[_io.RE_TERAFLY_ROOT.match] = re_match_model(_io.RE_TERAFLY_ROOT)
     except ImportError:  # pragma: no cover
         pass
